@@ -304,3 +304,117 @@ def run_identorder(ctx):
     res.floor(n, 1, "interpreter lookups in new_ident")
     # who else reads interpreter variables while parsing: only new_ident (and import / module code, which reads `std`)
     return res
+
+
+# ----------------------------------------------------------------------------------------------------------------------
+DECL_EXEC = "<instruction::function::declaration::FunctionDeclaration as instruction::Exec>::exec"
+LV_INSERT = "instruction::local_variable::LocalVariables::<'a>::insert"
+LV_FROM_PARAMS = "instruction::local_variable::LocalVariables::<'a>::from_params"
+
+
+def run_selfname(ctx):
+    res = RuleResult("R-SELFNAME", "when a function declaration runs, its own name never overwrites a parameter: in FunctionDeclaration::exec a "
+                                   "LocalVariables::insert that can follow from_params lies behind `LocalVariables::get == None` (creation and "
+                                   "folding bind the name in the enclosing scope, below the parameters - the three must agree; D27)")
+    from ..owners import for_crate
+    lib = ctx.facts.lib
+    b = lib.body(DECL_EXEC)
+    if not res.anchor(b is not None, DECL_EXEC):
+        return res
+    own = for_crate(lib)
+    bodies = {hb.id: hb for hb in own.members(DECL_EXEC)}
+    fp = [c for c in b.calls if c.callee == LV_FROM_PARAMS]
+    ins = [c for hb in bodies.values() for c in hb.calls if c.callee == LV_INSERT]
+    key = "selfname:FunctionDeclaration::exec"
+    if not fp:
+        # the scope is built some other way (e.g. own name first, parameters layered on top): nothing to overwrite here; the
+        # sibling-agreement clauses of R-LAYER judge that form
+        res.ok(key, b.where(), "no flat parameter scope (from_params) in exec")
+        return res
+    bad = []
+    for c in ins:
+        hb = c.body
+        after = hb is not b or any(c.bb in b.reachable_after(f.bb) for f in fp)
+        if not after:
+            continue
+        ok, why = _behind_none(lib, bodies, hb, c.bb, set())
+        if not ok:
+            bad.append(c)
+    if bad:
+        res.bad(key, "FunctionDeclaration::exec binds a name on top of the parameter scope without first asking whether a parameter has "
+                     "that name: for `f := (f: (int, int)) -> int { (a, b) := f; .. }` the body is folded against a function-typed `f` "
+                     "although the checker typed it as the parameter, and running the declaration panics", b.where(bad[0].line))
+    else:
+        res.ok(key, b.where(), "%d insert(s) after from_params, each behind a failed lookup" % len(ins))
+    return res
+
+
+# ----------------------------------------------------------------------------------------------------------------------
+CODE_PARSE = "code::Code::parse"
+IWS_NEW = "instruction::InstructionWithStr::new"
+IWS_RECREATE = "instruction::InstructionWithStr::recreate"
+
+
+def _root_place(b, o, depth=0):
+    """the place a `&mut` operand finally points to, as a hashable (local, projection) - reborrows (`&mut *r`), copies of
+    references and `deref_copy` temporaries are followed"""
+    if not isinstance(o, dict) or o.get("l") is None:
+        return None
+    l, proj = o["l"], [(p.get("k"), p.get("i")) for p in o.get("p", [])]
+    for _ in range(12):
+        defs = b.def_sites(l)
+        if l <= b.arg_count or len(defs) != 1 or defs[0][1] != "assign":
+            break
+        rv = defs[0][2]["rv"]
+        if rv["k"] == "ref" and (not proj or proj[0][0] == "deref"):
+            # a reference to P, (then dereferenced): the place is P . rest
+            src = rv["place"]
+            l, proj = src["l"], [(p.get("k"), p.get("i")) for p in src.get("p", [])] + proj[1:]
+        elif rv["k"] in ("use", "copyderef") and isinstance(rv.get("o") or rv.get("place"), dict):
+            src = rv.get("o") or rv.get("place")
+            if src.get("l") is None:
+                break
+            l, proj = src["l"], [(p.get("k"), p.get("i")) for p in src.get("p", [])] + proj
+        else:
+            break
+    return (l, tuple(proj))
+
+
+def run_parsescope(ctx):
+    res = RuleResult("R-PARSESCOPE", "Code::parse creates a top-level statement and folds it right away; the folding pass must not resolve the "
+                                     "statement's reads against what the statement itself declares: the scope handed to "
+                                     "InstructionWithStr::recreate is not the scope InstructionWithStr::new registered into, but a copy "
+                                     "(LocalVariables::fork) taken before the statement was created (D28; root places of the two `&mut` "
+                                     "arguments, dominance of the fork)")
+    from ..owners import for_crate
+    lib = ctx.facts.lib
+    b0 = lib.body(CODE_PARSE)
+    if not res.anchor(b0 is not None, CODE_PARSE):
+        return res
+    own = for_crate(lib)
+    key = "parsescope:Code::parse"
+    members = list(own.members(CODE_PARSE))
+    news = [c for hb in members for c in hb.calls if c.callee == IWS_NEW]
+    recs = [c for hb in members for c in hb.calls if c.callee == IWS_RECREATE or c.callee.endswith("::Recreate>::recreate")]
+    found = bool(news and recs)
+    for r in (recs if found else []):
+        hb = r.body
+        pr = _root_place(hb, r.args[1])
+        forks = [c for c in hb.calls if c.callee.endswith("LocalVariables::<'a>::fork") and c.dest and pr is not None
+                 and pr == (c.dest["l"], ())]
+        # the copy must be taken before the statement is created
+        late = [c for c in forks for n in news if n.body is hb and c.bb in hb.reachable_after(n.bb)]
+        if not forks:
+            res.bad(key, "Code::parse folds a statement against the scope its creation just registered into (the scope handed to recreate "
+                         "is not a LocalVariables::fork copy): in `x := mut 1; x := (x, 2)` the read of x on the right is re-resolved to "
+                         "the new declaration, x is recorded as ((mut int, int), int) and `x.0.0` passes the checker and panics",
+                    hb.where(r.line))
+        elif late:
+            res.bad(key, "the copy of the scope that Code::parse folds a statement against is taken after the statement was created: it "
+                         "already holds what the statement declares", hb.where(r.line))
+        else:
+            res.ok(key, hb.where(r.line), "folded against a fork taken before creation")
+    if not found:
+        # creation and folding no longer meet in Code::parse (e.g. no immediate folding): nothing to confuse
+        res.ok(key, b0.where(), "Code::parse does not fold what it just created")
+    return res
